@@ -1142,6 +1142,7 @@ func (p *asyncProducer) returnError(msg *ProducerMessage, err error) {
 	if msg.hasSequence {
 		Logger.Printf("producer/txnmanager rolling over epoch due to publish failure on %s/%d", msg.Topic, msg.Partition)
 		p.txnmgr.bumpEpoch()
+		verifEvt("txn.bump", msg, 0, 0)
 	}
 	msg.clear()
 	pErr := &ProducerError{Msg: msg, Err: err}
